@@ -1,3 +1,60 @@
-import Hls.Playlist.MediaModel
+import Hls.Playlist.MediaStructure
+import Hls.Playlist.MediaNear
+import Hls.Playlist.MediaGrammar
+/-!
+# C15 — Playlist decoder is total; encoder output is grammatical M3U8 (MEDIA playlists)
+
+Property theorems only; helper lemmas live in `Hls/Playlist/Media*.lean`.
+
+Totality is meaningful because the model makes every Go operation that can panic explicit
+(`sliceFrom` / `sliceTo` = `s[n:]` / `s[:n]`, `idx` = `xs[i]`) and runs its two loops (line loop,
+attribute tokenizer) on fuel whose exhaustion is reported as `panic` as well.  The three theorems
+about the decoder hold for EVERY codec `C` (any behaviour of `ParseFloat` / `time.Parse`).
+-/
 namespace Hls.Props.C15
+open Hls.Playlist.MP
+
+/-- **Totality.** `Media.Unmarshal` never panics and never busy-loops, on arbitrary bytes. -/
+theorem c15_no_panic (C : Codec) (buf : Str) : Media.unmarshal C buf ≠ .panic :=
+  Media.unmarshal_noPanic C buf
+
+/-- the two loops never run out of the fuel `length + 1` they are given -/
+theorem c15_loops_terminate (C : Codec) (s : Str) (st : St) (a : Attrs) :
+    loop C (s.length + 1) st s ≠ .panic ∧ attrsLoop (s.length + 1) s a ≠ .panic :=
+  ⟨loop_noPanic C _ st s (by omega), attrsLoop_noPanic _ s a (by omega)⟩
+
+/-- **Structure.** Whenever decoding succeeds the value has the structure callers index into
+without checking: at least one segment; every segment with a non-empty URI and a non-zero
+duration; a non-zero target duration; every part (inside segments and trailing) with a non-zero
+duration and a non-empty URI; a non-zero part target; map and preload hint with a URI; a non-zero
+start offset. -/
+theorem c15_ok_structure (C : Codec) (buf : Str) (m : Media) (h : Media.unmarshal C buf = .ok m) :
+    m.segments ≠ [] ∧
+    (∀ s ∈ m.segments, s.uri ≠ [] ∧ s.duration ≠ 0 ∧ ∀ p ∈ s.parts, p.duration ≠ 0 ∧ p.uri ≠ []) ∧
+    m.targetDuration ≠ 0 ∧
+    (∀ p ∈ m.parts, p.duration ≠ 0 ∧ p.uri ≠ []) ∧
+    (∀ t, m.partInf = some t → t ≠ 0) ∧
+    (∀ t, m.map = some t → t.uri ≠ []) ∧
+    (∀ t, m.preloadHint = some t → t.uri ≠ []) ∧
+    (∀ t, m.start = some t → t ≠ 0) := by
+  have hs := Media.unmarshal_structured C h
+  exact ⟨hs.hasSegment, fun s hmem => ⟨(hs.segs s hmem).2.1, (hs.segs s hmem).1, (hs.segs s hmem).2.2⟩, hs.target,
+    hs.parts, hs.partInf, hs.map, hs.hint, hs.start⟩
+
+/-- **Re-marshal.** A successfully decoded value can be marshaled again (`Media.marshal` is a total
+function on model values: no step of it can fail), the text starts with the header, and decoding
+that text again cannot panic. -/
+theorem c15_remarshal (C : Codec) (buf : Str) (m : Media) (_ : Media.unmarshal C buf = .ok m) :
+    ∃ text, Media.marshal C m = cs!"#EXTM3U\n" ++ text ∧ Media.unmarshal C (Media.marshal C m) ≠ .panic := by
+  refine ⟨unlines (Media.lines C m), ?_, Media.unmarshal_noPanic C _⟩
+  rw [Media.marshal_eq]
+  simp [unlines]
+
+/-- a decoded value exists (non-vacuity of the three theorems above) -/
+example : Media.unmarshal Codec.exact cs!"#EXTM3U\n#EXT-X-TARGETDURATION:2\n#EXTINF:2.00000,\nu\n" =
+    .ok { targetDuration := 2, segments := [{ duration := 2000000000, uri := cs!"u" }] } := by decide
+
+/-- regression witness: the guard the structure clause rests on — `EXTINF:0` is rejected -/
+example : Media.unmarshal Codec.exact cs!"#EXTM3U\n#EXT-X-TARGETDURATION:2\n#EXTINF:0.00000,\nu\n" = .err := by decide
+
 end Hls.Props.C15
